@@ -1092,7 +1092,13 @@ bool SessionManager::send_all(SocketHandle handle, const std::uint8_t* data, std
 #ifdef _WIN32
         const auto sent = ::send(socket, reinterpret_cast<const char*>(data + sent_total), static_cast<int>(length - sent_total), 0);
 #else
-        const auto sent = ::send(socket, reinterpret_cast<const char*>(data + sent_total), length - sent_total, 0);
+#ifdef MSG_NOSIGNAL
+        // a send that loses the race with close_session_socket() must fail, not raise SIGPIPE
+        constexpr int kSendFlags = MSG_NOSIGNAL;
+#else
+        constexpr int kSendFlags = 0;
+#endif
+        const auto sent = ::send(socket, reinterpret_cast<const char*>(data + sent_total), length - sent_total, kSendFlags);
 #endif
         if (sent <= 0) {
             return false;
@@ -1174,9 +1180,23 @@ void SessionManager::close_session_socket(const std::shared_ptr<Session>& sessio
     }
     bool expected = false;
     if (session->socket_closed.compare_exchange_strong(expected, true)) {
-        close_socket(session->socket);
-        session->socket = INVALID_SOCKET_HANDLE;
+        shutdown_socket(session->socket);
     }
+}
+
+SessionManager::Session::~Session() {
+    close_socket(socket);
+}
+
+void SessionManager::shutdown_socket(SocketHandle handle) {
+    if (handle == INVALID_SOCKET_HANDLE) {
+        return;
+    }
+#ifdef _WIN32
+    ::shutdown(to_native(handle), SD_BOTH);
+#else
+    ::shutdown(to_native(handle), SHUT_RDWR);
+#endif
 }
 
 bool SessionManager::configure_socket(SocketHandle handle, bool server_mode) {
